@@ -64,6 +64,7 @@ class Pair(object):
         A.cfg["llcp-dpc"] = B.cfg["llcp-dpc"] = 0
         self.A, self.B = End("A", A), End("B", B)
         self.ev = []
+        self.broken = False
         self.wire = {"A": [], "B": []}     # encoded frames in flight (bytes or None for SYMM)
         srv = nfc.llcp.Socket(B, nfc.llcp.DATA_LINK_CONNECTION)
         srv.setsockopt(nfc.llcp.SO_RCVMIU, miuB)
@@ -245,6 +246,28 @@ def boundary_lens(smiu, rnd):
     return [v for v in c if v >= 0]
 
 
+def step_op(P, rnd, e, x, r, small, recv_p, busy_p, with_close):
+    if r < 0.30:
+        smiu = x.dlc.send_miu
+        n = rnd.choice([0, 1, 2, 3, 5, 8]) if small and rnd.random() < 0.85 else rnd.choice(boundary_lens(smiu, rnd))
+        P.send(e, n)
+    elif r < 0.30 + recv_p:
+        if P.can_recv(e):
+            P.recv(e)
+    elif r < 0.30 + recv_p + busy_p:
+        P.set_busy(e, not x.dlc.mode.RECV_BUSY)
+    elif r < 0.36 + recv_p + busy_p:
+        if x.dlc.acks_recvd > 0 and not x.dlc.state.SHUTDOWN:
+            P.poll_acks(e)
+    elif with_close and rnd.random() < 0.02 and x.dlc.state.ESTABLISHED and x.closer is None:
+        P.close_begin(e)
+    else:
+        if P.wire[e] and (rnd.random() < 0.6 or len(P.wire[e]) > 3):
+            P.deliver(e)
+        else:
+            P.broken = P.collect(e)
+
+
 def run_one(seed, steps, with_close, cfg=None):
     rnd = random.Random(seed)
     if cfg is None:
@@ -265,6 +288,15 @@ def run_one(seed, steps, with_close, cfg=None):
             x = P.end(e)
             if broken:
                 break
+            try:
+                step_op(P, rnd, e, x, r, small, recv_p, busy_p, with_close)
+            except HarnessError:
+                raise
+            except Exception as ex:     # an exception out of the code under test is an observation, not a crash
+                P.ev.append(dict(e=e, a="Raise", exc=type(ex).__name__, msg=str(ex)[:80], post=x.snap()))
+                break
+            broken = P.broken
+            continue
             if r < 0.30:
                 smiu = x.dlc.send_miu
                 n = rnd.choice([0, 1, 2, 3, 5, 8]) if small and rnd.random() < 0.85 else rnd.choice(boundary_lens(smiu, rnd))
@@ -439,6 +471,8 @@ def classify(tr, line, act, why):
     """Canonical key of a rejection: the failing clause + the situation, not the seed."""
     ev = tr["ev"][line - 1]
     kind = why[0] if why else "?"
+    if act == "Raise":
+        return "raise:%s:%s" % (ev.get("exc"), ev.get("msg", "")[:40])
     if act == "Collect" and ev.get("broken"):
         return "collect:I-PDU-without-N(R)-after-close:EncodeError->link-disruption"
     if kind == "inv":
